@@ -492,7 +492,7 @@ func (w *World) buildPayV2(wl *Wallet, n *Node, chain int) []*PoolTxn {
 		txn.SiacoinOutputs = append(txn.SiacoinOutputs, types.SiacoinOutput{Value: p, Address: addr})
 	}
 	if t.Chance(1, 6) {
-		txn.ArbitraryData = sim.HashBytes("arb2", uint64(wl.idx), wl.next(), t.Range(1, 40))
+		txn.ArbitraryData = sim.HashBytes("arb2", uint64(wl.idx), wl.next(), pick(t, t.Range(1, 40), t.Range(1, 40), t.Range(63, 66), t.Range(127, 130), t.Range(190, 260)))
 	}
 	if !wl.signV2(n.tip, &txn) {
 		return nil
